@@ -14,6 +14,7 @@ func init() {
 		la := c.lockAnalysis()
 		c.rulesC01(a, la)
 		c.rulesC01x(a, la)
+		c.rulesC01net()
 	})
 	register("C03", propInfo{
 		Explanation: "Decides: (g) the only state/tick writer and the final-handler phase are unreachable for a canceled or check-only transition (dominating guards !IsCheck and result != Canceled in emitEvents); (cs) every call of the writer holds activeStatesMx in W mode, so applying is one exclusive critical section; (entry) every exported Machine method that reaches the queue refuses first on disposing, Backoff() and (appended mutations) queueLen >= QueueLimit with a Canceled return, and any new entry point must be reviewed; (chk) CanAdd/CanRemove only prepend an IsCheck:true mutation, and queue ticks are written only by queueMutation/processQueue/the deadline flush, the processQueue increment being conditional on the mutation carrying a queue tick.",
@@ -66,6 +67,7 @@ func init() {
 		if a.ok {
 			c.rulesC05(a)
 			c.rulesC05x(a)
+			c.rulesC05topo()
 		}
 	})
 	register("C07", propInfo{
@@ -100,6 +102,7 @@ func init() {
 		if a.ok {
 			c.rulesC06(a, c.lockAnalysis())
 			c.rulesC06x(a)
+			c.rulesC06reuse()
 		}
 	})
 	register("C13", propInfo{
@@ -124,6 +127,7 @@ func init() {
 		if a.ok {
 			c.rulesC08(a)
 			c.rulesC08ver()
+			c.rulesC08nb()
 			c.rule("C08.imm", "fault recovery never mutates in place a slice aliasing Machine.activeStates (the old set is needed to decide which states tick during rollback)")
 			c.inPlaceAliasLint("C08.imm", a.fActive, []string{pm}, 5)
 		}
@@ -150,6 +154,7 @@ func init() {
 		if a.ok {
 			c.rulesC02(a)
 			c.rulesC02x(a)
+			c.rulesC02grow()
 		}
 	})
 }
@@ -161,6 +166,7 @@ func init() {
 		Trusted:     commonTrusted,
 	}, func(c *Ctx) {
 		c.rulesC09(c.lockAnalysis())
+		c.rulesC09x()
 	})
 	register("C10", propInfo{
 		Explanation: "Narrow structural claim (round-trip equality is value level and is not decided): (narrow) no unguarded narrowing conversion of tick / queue-tick / machine-tick data in the update encoder; (space) both encoders index the snapshots' mTime, and compare against their length, only through the pushed index, and agree with each other; (sum) one Checksum used by producer and verifier; (dec) the decoder bounds-checks each index; (chk) the client applies the decoded clock only under Checksum(post-update values) == message checksum and returns false on mismatch.",
